@@ -510,6 +510,15 @@ func init() {
 						}
 					}
 				}
+				if c.T == 0 { // the same object as both operands (and as the destination too)
+					for _, op := range bin {
+						if c.P == 0 && x.F == 0 && op == "pow" {
+							continue
+						}
+						g.emit(mkA(op, c, x, x, 0, "xy", fresh), op+"/xy")
+						g.emit(mkA(op, c, x, x, 0, "dxy", fresh), op+"/dxy")
+					}
+				}
 				if x.F >= 2 && c.T == 0 {
 					for _, op := range un {
 						g.emit(mkA(op, c, x, x, 0, "dx", fresh), op+"/alias")
